@@ -35,6 +35,85 @@ def branch_sets(body):
     return out
 
 
+def slot_of(o):
+    o = mir.deepstrip(o)
+    if o[0] == "field" and o[1] == ("arg", 1):
+        return o[2]
+    return None
+
+
+def switch_condition(body, bb):
+    """Meaning of a switch terminator as a presence test of one of self's vtable slots:
+    returns (slot, {value: 'some'|'none'}, otherwise_meaning) or None when it is some other condition."""
+    t = body.blocks[bb]["t"]
+    o = mir.deepstrip(body.origin_operand(t["o"]))
+    if o[0] == "discr":
+        inner = o[1]
+        if inner[0] == "call" and inner[1] == BRANCH:
+            sl = slot_of(inner[2][0])
+            return (sl, {0: "some", 1: "none"}, None) if sl else None
+        sl = slot_of(inner)
+        if sl:
+            return (sl, {1: "some", 0: "none"}, None)
+        return None
+    if o[0] == "call" and o[1].endswith("Option::<T>::is_none"):
+        sl = slot_of(o[2][0])
+        return (sl, {0: "some"}, "none") if sl else None
+    if o[0] == "call" and o[1].endswith("Option::<T>::is_some"):
+        sl = slot_of(o[2][0])
+        return (sl, {0: "none"}, "some") if sl else None
+    return None
+
+
+def path_constraints(body, path):
+    """{slot: 'some'|'none'} required along a block path; 'unknown' key when a switch is not a slot presence test."""
+    cons = {}
+    for a, b in zip(path, path[1:]):
+        t = body.blocks[a]["t"]
+        if t["k"] != "switch":
+            continue
+        sc = switch_condition(body, a)
+        if sc is None:
+            cons["<other-condition>"] = "unknown"
+            continue
+        slot, table, otherwise = sc
+        tg = {int(v): d for v, d in t["targets"]}
+        vals = [v for v, d in tg.items() if d == b]
+        meaning = None
+        if vals:
+            meaning = table.get(vals[0], otherwise)
+        elif b == t["otherwise"]:
+            meaning = otherwise
+        if meaning:
+            if cons.get(slot, meaning) != meaning:
+                cons[slot] = "contradiction"
+            else:
+                cons[slot] = meaning
+    return cons
+
+
+def success_rule(ck, body, key, fname, succ_bb, S):
+    """Every path that reaches the success site has all requested slots Some; every other returning path has one of them None."""
+    paths = body.paths_to_return()
+    ok_succ, ok_fail, n_s, n_f = True, True, 0, 0
+    bad = None
+    for p in paths:
+        if succ_bb in p:
+            n_s += 1
+            c = path_constraints(body, p[:p.index(succ_bb) + 1])
+            if not all(c.get(s) == "some" for s in S) or "<other-condition>" in c:
+                ok_succ, bad = False, c
+        else:
+            n_f += 1
+            c = path_constraints(body, p)
+            if not any(c.get(s) == "none" for s in S) or "<other-condition>" in c:
+                ok_fail, bad = False, c
+    ck.ob("G3-success-iff-all-requested-present", key, ok_succ and ok_fail and n_s >= 1,
+          "%s: %s (path condition %s; requested %s)" % (fname, "reaches its success site without every requested vtable being present" if not ok_succ else
+                                                        "can fail although every requested vtable is present" if not ok_fail else "has no success path", bad, list(S)),
+          sample={"fn": fname, "success_paths": n_s, "failing_paths": n_f})
+
+
 def check_group(ck, m, grp, label, impl_expect):
     key0 = "%s/%s" % (label, grp.base["path"])
     bf = model.adt_fields(grp.base)
@@ -67,12 +146,7 @@ def check_group(ck, m, grp, label, impl_expect):
                 ck.ob("G5-check-is-as-ref-some", key, ok, "%s is not `self.as_ref_impl_%s().is_some()`: %s" % (fname, suffix, mir.fmt(o)[:160]))
                 continue
             brs = branch_sets(body)
-            got = [s for _, s, _ in brs]
-            ck.ob("G3-validates-exactly-requested", key, sorted(got) == sorted(S) and None not in got,
-                  "%s validates slots %s but the requested set is %s" % (fname, got, list(S)), sample={"fn": fname, "validated": got})
-            other_sw = [s for s in mir.discr_switches(body) if not (s[1][0] == "discr" and s[1][1][0] == "call" and s[1][1][1] == BRANCH)]
-            ck.ob("G3-no-other-condition", key, not other_sw, "%s has success conditions other than the presence of the requested vtables" % fname)
-            conts = [c for _, _, c in brs if c is not None]
+            conts = []
             # success site
             succ_bb, target = None, None
             if op in ("cast", "into"):
@@ -87,13 +161,14 @@ def check_group(ck, m, grp, label, impl_expect):
                 # S == slots that are optional in the group but required in the target
                 req = {n for n, f in tf if n in opt and not is_opt(f["ty"])}
                 ck.ob("G4-requested-equals-required-slots", key, req == Sset, "%s targets %s whose required optional slots are %s, requested %s" % (fname, target, sorted(req), list(S)))
-                ck.ob("G3-success-after-all-present", key, all(body.dominates(c, succ_bb) for c in conts) and len(conts) == len(S),
-                      "%s builds its result before every requested vtable was found present" % fname)
+                success_rule(ck, body, key, fname, succ_bb, S)
                 for fname_, opnd in zip(agg["fields"], agg["ops"]):
                     o = forward.leafify(body.origin_operand(opnd))
                     if fname_ in Sset:
-                        ok = o[0] == "field" and o[2] == "0" and o[1][0] == "downcast" and o[1][2] == "Continue" and o[1][1][0] == "call" \
-                            and forward.leafify(o[1][1][2][0]) == ("field", ("arg", 1), fname_)
+                        # the unwrapped value of the group's own slot of the same name (whatever idiom unwraps it)
+                        od = mir.deepstrip(o)
+                        leaves = [y for y in mir.walk(od) if y[0] == "field" and y[1] == ("arg", 1)]
+                        ok = bool(leaves) and all(y[2] == fname_ for y in leaves)
                     else:
                         ok = o == ("field", ("arg", 1), fname_)
                     ck.ob("G3-field-moved-by-name", "%s.%s" % (key, fname_), ok, "%s: field %s of the result is %s, expected the group's own %s" % (fname, fname_, mir.fmt(o)[:120], fname_))
@@ -115,8 +190,7 @@ def check_group(ck, m, grp, label, impl_expect):
                 ck.ob("G4-requested-equals-required-slots", key, req == Sset,
                       "%s reinterprets as %s whose non-Option optional slots are %s, but validates %s" % (fname, target, sorted(req), list(S)),
                       sample={"fn": fname, "target": target, "required": sorted(req)})
-                ck.ob("G4-validated-before-cast", key, all(body.dominates(c, succ_bb) for c in conts) and len(conts) == len(S),
-                      "%s reinterprets the group before every requested vtable was validated" % fname)
+                success_rule(ck, body, key, fname, succ_bb, S)
     # ---- G6 fillers -------------------------------------------------------------------------------
     for owner in (grp.base, grp.vtables):
         if owner is None:
